@@ -111,4 +111,6 @@ Section SpellText.
   Proof.
     intros H E root lv. cbn [FiltChainAddr.nav1f]. rewrite E. apply navp_ext. intros v. unfold ctest. rewrite (reach1_same i j H). reflexivity.
   Qed.
+  Lemma rec_filter_spellings x y : same_step x y -> same_step (FR x) (FR y).
+  Proof. intros H root lv. cbn [FiltChainAddr.nav1f]. apply flat_map_ext'. intros cu. apply H. Qed.
 End SpellText.
